@@ -305,6 +305,21 @@ class SymNP:
             return SymND([a[i + 1] - a[i] for i in range(len(a) - 1)])
         return _np.diff(a, *args, **k)
 
+    def sort(self, a, axis=-1, **k):
+        """np.sort; rows/vectors holding symbolic values go through the fork-free sorting network"""
+        if not _anysym(a):
+            return _np.sort(a, axis=axis, **k)
+        arr = _np.array(a, dtype=object)
+        if arr.ndim == 1:
+            return _np.array(self.sort_sym(list(arr)), dtype=object).view(SymND)
+        if arr.ndim == 2 and axis in (1, -1):
+            out = _np.empty(arr.shape, dtype=object)
+            for i in range(arr.shape[0]):
+                out[i, :] = self.sort_sym(list(arr[i, :]))
+            return out.view(SymND)
+        from .engine import Unsupported
+        raise Unsupported(f"symnp.sort on shape {arr.shape} axis {axis}")
+
     def sort_sym(self, vals):
         """sorting network by symbolic comparisons (no fork): returns sorted list."""
         v = list(vals)
